@@ -17,6 +17,7 @@ CONSTANTS
   Alias = {}
   TrackTouch = TRUE
   MisTag = {}
-INVARIANTS TypeOK ReadsLastCommitted ScansExactMembers IterSound ResultsIgnoreTouched OwnFamilyOnly
+  BufOrder = "seq"
+INVARIANTS TypeOK ReadsLastCommitted ScansExactMembers IterSound ResultsIgnoreTouched OwnFamilyOnly BufferIsSequence
 PROPERTY OnlyCommitChanges
 CHECK_DEADLOCK FALSE
